@@ -34,6 +34,7 @@ MonInitVal ==
     term |-> {},                 \* accepted terminating requests in this call chain
     termLate |-> {},             \* ... that landed after the plan had already ended (post-plan window)
     failedPause |-> FALSE,       \* a pause / suspension was requested while not resumable
+    failedPauseSelf |-> FALSE,   \* ... by the plan's own Msg('pause')
     failedPauseLate |-> FALSE,   \* ... and it landed after the plan had already ended (tail): either status is acceptable
     inObsClose |-> FALSE,        \* (within one obs) a close_run message was seen: the next stop doc is the plan's
     callRuns |-> 0,              \* nruns when the current RE(...) call started
@@ -252,7 +253,7 @@ UpdMsg(m0, e) ==
       \* a pause requested by the plan itself (Msg('pause')): same bookkeeping as an external request
       m4p == IF cmd = "pause" /\ m4.st = "running"
              THEN (IF a = "T" THEN [m4 EXCEPT !.deferPending = TRUE]
-                   ELSE IF ~m4.ckpt THEN [m4 EXCEPT !.failedPause = TRUE] ELSE m4)
+                   ELSE IF ~m4.ckpt THEN [m4 EXCEPT !.failedPause = TRUE, !.failedPauseSelf = TRUE] ELSE m4)
              ELSE m4
       \* a suspension starts: every moved device must be stopped (C11), one interruption record per open run (C40)
       m4s == IF cmd = "_start_suspender" /\ m4p.susUsed
@@ -295,9 +296,12 @@ UpdGen(mIn, e) ==
       \* C31 / C11: the plan does not run while an installed suspender's condition is tripped
       \* (C11 speaks about a suspension that is in effect: its clause needs one to have started in this call; a suspender
       \*  whose trip never led to a suspension at all is C31's "gates plan start")
-      m8 == ViolIf(m8a, inp = "send" /\ m8a.susEff # {} /\ m8a.term = {} /\ ~m8a.failedPause
-                        /\ (m8a.planMsg.cmd = "" \/ m8a.suspEver),
-                   IF m8a.planMsg.cmd = "" THEN "C31:plan-started-while-suspender-tripped" ELSE "C11:plan-ran-while-suspender-tripped")
+      \* C10: after a failed pause the plan's clean-up runs: nobody asked for an abort, so no RequestAbort may be thrown into it
+      m8b == ViolIf(m8a, inp = "throw" /\ val = "RequestAbort" /\ m8a.failedPause /\ m8a.term = {} /\ m8a.termLate = {},
+                    IF m8a.failedPauseSelf THEN "C10:cleanup-interrupted:self-pause" ELSE "C10:cleanup-interrupted:request")
+      m8 == ViolIf(m8b, inp = "send" /\ m8b.susEff # {} /\ m8b.term = {} /\ ~m8b.failedPause
+                        /\ (m8b.planMsg.cmd = "" \/ m8b.suspEver),
+                   IF m8b.planMsg.cmd = "" THEN "C31:plan-started-while-suspender-tripped" ELSE "C11:plan-ran-while-suspender-tripped")
       m9 == IF react = "yield" THEN [m8 EXCEPT !.genYielded = TRUE, !.planMsg = [cmd |-> "?", obj |-> "", run |-> ""]]
             ELSE IF react = "return" THEN [m8 EXCEPT !.planDone = TRUE]
             ELSE [m8 EXCEPT !.planDone = TRUE, !.planRaised = react, !.faulty = (@ \/ react = "raise:PlanErr")]
@@ -475,7 +479,7 @@ UpdCall(m, e, s) ==
                                !.bundle = [k \in RunKeys |-> [open |-> FALSE, mask |-> 0, n |-> 0, collide |-> FALSE]],
                                !.expectEvent = "none", !.gotEvent = FALSE, !.suspStopDue = {}, !.gotData = {},
                                !.keyOrd = [k \in RunKeys |-> 0],
-                               !.term = {}, !.termLate = {}, !.failedPause = FALSE, !.failedPauseLate = FALSE, !.callRuns = m.nruns, !.deferPending = FALSE,
+                               !.term = {}, !.termLate = {}, !.failedPause = FALSE, !.failedPauseLate = FALSE, !.failedPauseSelf = FALSE, !.callRuns = m.nruns, !.deferPending = FALSE,
                                !.deferCkpt = FALSE, !.since = <<>>, !.expect = <<>>, !.replaying = FALSE, !.ckpt = TRUE,
                                !.susp = {}, !.suspWait = FALSE, !.suspEver = FALSE, !.pausedNow = FALSE, !.faulty = FALSE, !.lastCmd = "", !.reqs = <<>>,
                                !.planDone = FALSE,
@@ -532,7 +536,7 @@ C08Tags == {"C08:interrupted-but-idle", "C08:interrupted-but-paused", "C08:inter
             "C08:interrupted-but-suspending", "C08:interrupted-but-aborting", "C08:interrupted-but-stopping", "C08:interrupted-but-halting",
             "C08:normal-return-without-completion", "C08:paused-in-non-resumable-section"}
 C09Tags == {"C09:pending-deferred-pause-not-reported", "C09:message-after-deferred-checkpoint", "C09:replay-after-deferred-pause"}
-C10Tags == {"C10:paused-after-failed-pause", "C10:not-reported"}
+C10Tags == {"C10:paused-after-failed-pause", "C10:not-reported", "C10:cleanup-interrupted:self-pause", "C10:cleanup-interrupted:request"}
 C11Tags == {"C11:plan-ran-while-suspender-tripped", "C11:moved-not-stopped-at-suspension", "C11:plan-resumed-during-suspension", "C11:returned-during-suspension"}
 C12Tags == {"C12:device-error-not-delivered", "C12:status-failure-after-checkpoint", "C12:status-failure-lost", "C12:unhandled-exception-not-raised"}
 C14Tags == {"C14:document-in-wrong-run", "C14:duplicate-open-accepted"}
